@@ -37,9 +37,14 @@ CHECKS = {
                                        "rename-above-grandchildren", "move-into-empty-parent", "duplicate-name-rejected",
                                        "move:older-under-newer", "prelude:inverted-ages", "1.x:cycle-attempt:onto-older-descendant",
                                        "2.x:cycle-attempt:onto-older-descendant"]),
-        # bounded-exhaustive: every sequence of 2 (quick) / 3 (thorough) operations from a 42-letter alphabet over <= 4 crates, 3 schemas
-        dict(prop="C07.enum2", harness="api_pbt", quick=dict(count="enum", workers=8), thorough=dict(count=0, workers=1)),
-        dict(prop="C07.enum3", harness="api_pbt", quick=dict(count=0, workers=1), thorough=dict(count="enum", workers=16))]),
+        # bounded-exhaustive over applicable operations only (subsumes the former 42-letter enumerations enum2 / enum3): every sequence of
+        # <= 4 (quick, 3 schemas; thorough, all 18 schemas) / <= 5 (thorough, 3 schemas) applicable operations from the empty library
+        dict(prop="C07.dfs4", harness="api_pbt", quick=dict(count="enum", workers=8), thorough=dict(count=0, workers=1),
+             essential=["schema=1.6.0", "schema=1.18.0 (OS)", "schema=2.21.2", "enum:full-length", "live-crates=4", "live-crates=0", "depth>=3", "cycle-attempt"]),
+        dict(prop="C07.dfs5", harness="api_pbt", quick=dict(count=0, workers=1), thorough=dict(count="enum", workers=16),
+             essential=["schema=1.6.0", "schema=1.18.0 (OS)", "schema=2.21.2", "enum:full-length", "live-crates=4", "live-crates=0", "depth>=3", "cycle-attempt"]),
+        dict(prop="C07.dfs4all", harness="api_pbt", quick=dict(count=0, workers=1), thorough=dict(count="enum", workers=16),
+             essential=_ALL_SCHEMAS + ["enum:full-length", "live-crates=4", "depth>=3", "cycle-attempt"])]),
     "C08": dict(level="exploration", parts=[
         dict(prop="REG", harness="api_pbt", quick=dict(count=0, workers=1), thorough=dict(count=0, workers=1)),  # regression scenarios
         dict(prop="C08", harness="api_pbt", quick=dict(count=4000, workers=8), thorough=dict(count=150000, workers=16),
@@ -207,10 +212,12 @@ RULES = {
            "sub_crate_by_name agree with the model; ids stable and new ids distinct from live ids (2.x: from every id ever issued); removed "
            "handles invalid. Invalid names and cycle attempts must throw; legal operations must succeed unless a sibling name collides; "
            "remove_crate may remove the subtree or re-root survivors (model adopts what the library did, invariants must then hold). "
-           "Additionally a bounded-exhaustive part: every sequence of exactly 2 (quick) / 3 (thorough) operations from a 42-letter "
-           "alphabet (create root / sub-crate of crate 0..3 with name A|B, rename crate 0..3 to A|B, re-parent crate 0..3 under crate 0..3 or none, "
-           "remove crate 0..3; at most 4 crates) on 1.6.0, 1.18.0 (OS) and 2.21.2, invariants after every step (so shorter sequences are "
-           "covered as prefixes). Non-trivial = depth >=2 and a rename/move/remove hit a crate with descendants, or a cycle attempt was made.",
+           "Additionally a bounded-exhaustive part: every sequence of at most 4 (quick) / 5 (thorough) applicable operations, starting from the "
+           "empty library, from the alphabet {create root crate A|B, create sub-crate A|B of live crate k, rename live crate k to A|B, re-parent "
+           "live crate k under live crate j (incl. itself and its descendants) or to the root, remove live crate k} with at most 4 live crates "
+           "(2/9/18/29/32 applicable operations with 0/1/2/3/4 live crates; 28 188 cases at depth 4, 902 016 at depth 5) on 1.6.0 (Crate table), "
+           "1.18.0 OS (Crate view over List) and 2.21.2, and at depth 4 on all 18 schemas in the thorough tier; invariants after every step, shorter "
+           "sequences are covered as prefixes. Non-trivial = depth >=2 and a rename/move/remove hit a crate with descendants, or a cycle attempt was made.",
     "C08": "Case = schema + id-diverging prelude (0..2 tracks created and removed, 1..3 live tracks, 1..3 crates) + up to 27 operations "
            "(create/remove track, create/remove crate, add_track by handle and by id, crate::remove_track, clear_tracks). Membership model: "
            "after every step every live crate's tracks() equals the model set as a multiset, every handle is_valid(), on 1.x "
